@@ -124,12 +124,19 @@ def _pub(o):
             tuple(ob['mask']) if isinstance(ob['mask'], list) else ob['mask'], con)
 
 
+_OWN_COPY: Dict[type, bool] = {}
+
+
 def clone(o):
     """Independent copy of an auction object.  If the class defines its own copy protocol (__deepcopy__ / __copy__) that protocol is
     what users of the library get from copy.deepcopy, so it is what the search uses: a copy that shares anything with its original
     then shows up as cross-talk between branches of the search."""
     t = type(o)
-    if getattr(t, '__deepcopy__', None) is not None or getattr(t, '__copy__', None) is not None or getattr(t, '__reduce_ex__', None) is not object.__reduce_ex__:
+    own = _OWN_COPY.get(t)
+    if own is None:
+        own = _OWN_COPY[t] = (getattr(t, '__deepcopy__', None) is not None or getattr(t, '__copy__', None) is not None
+                              or getattr(t, '__reduce_ex__', None) is not object.__reduce_ex__ or getattr(t, '__getstate__', object.__getstate__) is not object.__getstate__)
+    if own:
         return copy.deepcopy(o)
     n = object.__new__(t)
     n.__dict__.update({k: fastcopy(v) for k, v in vars(o).items()})
@@ -258,6 +265,9 @@ def explore(dealer: str, vul: str, cell: Optional[Tuple[str, str]], c: Counter, 
     seen[k0] = non_history_part(o0)
     frontier = deque([(o0, [])])
     while frontier:
+        if c.enough():
+            c.inc('stopped_early_after_violations')
+            break
         o, hist = frontier.popleft()
         c.mx('max_depth', len(hist))
         before = clone(o)
@@ -286,13 +296,14 @@ def explore(dealer: str, vul: str, cell: Optional[Tuple[str, str]], c: Counter, 
             rp = {'kind': 'auction', 'dealer': dealer, 'vul': vul, 'history': list(hist), 'call': name}
             if name not in legal:
                 c.inc('illegal_offered')
-                o3 = clone(o)
-                r = apply_call(o3, idx)
+                r = apply_call(o, idx)            # on the object itself: a refused call normally changes nothing, no copy needed
                 if r is not BiddingPhaseState.ILLEGAL:
                     c.violate(f'C01:accepted_illegal:{klass(hist, name, dealer)}',
                               f'illegal call {name} after {hist} (dealer {dealer}) was answered {fmt(r)} instead of ILLEGAL', rp)
+                    o = clone(before)
                     continue
-                if not same_state(o3, before):
+                if not same_state(o, before):
+                    o3, o = o, clone(before)
                     if changed(o3, before, c):
                         c.violate(f'C01:illegal_changed:{klass(hist, name, dealer)}',
                                   f'rejected/illegal call {name} after {hist} changed the auction state', rp)
